@@ -237,6 +237,9 @@ func globalOnlyRead(p *core.Program, g *ssa.Global) bool {
 // funcGlobalStateless: g has function type and every value ever stored in it (package initialisation) is a plain
 // function or a closure without captured variables, so calling it shares no state.
 func funcGlobalStateless(p *core.Program, g *ssa.Global) bool {
+	if st, ok := g.Type().(*types.Pointer).Elem().Underlying().(*types.Struct); ok {
+		return funcTableStateless(p, g, st)
+	}
 	if _, ok := g.Type().(*types.Pointer).Elem().Underlying().(*types.Signature); !ok {
 		return false
 	}
@@ -288,6 +291,82 @@ func funcGlobalStateless(p *core.Program, g *ssa.Global) bool {
 					}
 				}
 			}
+		}
+	}
+	return stores > 0
+}
+
+// funcTableStateless: g is a struct all of whose reference-typed fields are function values; every store into
+// it happens at package initialisation and puts a plain function or a closure without captured variables there;
+// afterwards its fields are only loaded (and the loaded functions called or passed on).
+func funcTableStateless(p *core.Program, g *ssa.Global, st *types.Struct) bool {
+	for i := 0; i < st.NumFields(); i++ {
+		ft := st.Field(i).Type()
+		if _, isSig := ft.Underlying().(*types.Signature); isSig {
+			continue
+		}
+		if isRefType(ft) {
+			return false
+		}
+	}
+	okValue := func(v ssa.Value) bool {
+		switch x := v.(type) {
+		case *ssa.Function:
+			return len(x.FreeVars) == 0
+		case *ssa.MakeClosure:
+			return len(x.Bindings) == 0
+		case *ssa.Const:
+			return true
+		}
+		return false
+	}
+	stores := 0
+	check := func(fn *ssa.Function, isInit bool) bool {
+		for _, b := range fn.Blocks {
+			for _, in := range b.Instrs {
+				switch x := in.(type) {
+				case *ssa.Store:
+					if fa, ok := x.Addr.(*ssa.FieldAddr); ok && fa.X == g {
+						if !isInit || !okValue(x.Val) {
+							return false
+						}
+						stores++
+					}
+					if x.Addr == g {
+						return false // whole-struct assignment: not followed
+					}
+				case *ssa.FieldAddr:
+					if x.X != g {
+						continue
+					}
+					for _, ref := range *x.Referrers() {
+						switch y := ref.(type) {
+						case *ssa.UnOp:
+						case *ssa.Store:
+							if y.Addr != x {
+								return false
+							}
+						case *ssa.DebugRef:
+						default:
+							return false
+						}
+					}
+				}
+			}
+		}
+		return true
+	}
+	if sp := g.Pkg; sp != nil {
+		if initFn := sp.Func("init"); initFn != nil && !check(initFn, true) {
+			return false
+		}
+	}
+	for _, fn := range p.ModuleFunctions() {
+		if fn.Name() == "init" && fn.Parent() == nil {
+			continue
+		}
+		if !check(fn, false) {
+			return false
 		}
 	}
 	return stores > 0
